@@ -464,7 +464,8 @@ def run(ctx):
     if len(ovl) != n_ovl and not ctx.violations:
         raise Machinery("kinds ovl, tovl: %d overlapped pairs recorded for %d schedules" % (len(ovl), n_ovl))
     for k in ("ovl", "tovl"):
-        if not any(e.get("locked") and e.get("g2") == "lock" for b in blocks if b[0].get("kind") == k for e in b if e["ev"] == "aview"):
+        if not ctx.violations and not any(e.get("locked") and e.get("g2") == "lock"
+                                          for b in blocks if b[0].get("kind") == k for e in b if e["ev"] == "aview"):
             raise Machinery("kind %s: in no history the second operation waited for the lock held by the first (vacuous gate)" % k)
     overl = 0
     for b in lblocks:
@@ -490,7 +491,7 @@ def run(ctx):
     cov["operations_judged"] = len(ops)
     cov["refused_operations"] = sum(1 for e in ops if e.get("err"))
     cov["overlapping_admin_pairs_judged"] = len(ovl)
-    cov["overlapping_admin_pairs_second_waited_for_route_lock"] = sum(1 for e in ovl if e.get("locked") and e.get("g2") == "lock")
+    cov["overlapping_admin_pairs_second_waited_for_the_lock_held_by_first"] = sum(1 for e in ovl if e.get("locked") and e.get("g2") == "lock")
     cov["overlapping_admin_pairs_by_second_operation"] = ovl_cov(blocks)
     cov["load_ops_overlapping_a_dispatch"] = overl
     cov["whole_table_dispatches_with_two_lists_changed_in_flight"] = whole_table_cov(blocks)
